@@ -21,6 +21,8 @@ def check(ctx, rep, tier):
     rep.describe("length-term", "in both scoring methods the text enters only through its "
                  "length, so the length term is a constant shift for a fixed text")
     _edges(ctx, rep)
+    from . import spellings
+    spellings.check(ctx, rep, "listed-spellings-whole", None, floor=5)
     _raw_extent_readers(ctx, rep)
     # a clock pattern that swallows the first letters of the next word blurs the span
     from . import c20
